@@ -268,8 +268,10 @@ static void judge(Ctx& c, std::vector<Stat>& stats, int sim, const std::string& 
     double err = std::fabs(T - st.E);
     bool ok    = std::isfinite(T) && err <= bound;
     c.check(st.cls == "mean" ? "mean" : st.cls == "variance" ? "variance" : (st.iv == st.jv ? "covariance" : "cross-covariance"),
-            keyBase + ":" + st.cls + (st.cls == "mean" ? (meanNonZero ? ":model-mean-nonzero" : ":model-mean-zero") : ""), ok, std::isfinite(T) ? err : INFINITY, bound,
-            ok ? "" : fmt("%s: ensemble %.6g model %.6g, bound %.4g (z*SD part %.4g, allowance %.4g), R=%d", st.label.c_str(), T, st.E, bound,
+            // key = simulator : support / model class : {mean, variance, covariance, cross-covariance}; the lag class is in the detail
+            keyBase + ":" + (st.cls == "mean" ? std::string("mean") + (meanNonZero ? ":model-mean-nonzero" : ":model-mean-zero")
+                             : st.cls == "variance" ? "variance" : st.iv == st.jv ? "covariance" : "cross-covariance"), ok, std::isfinite(T) ? err : INFINITY, bound,
+            ok ? "" : fmt("[%s] %s: ensemble %.6g model %.6g, bound %.4g (z*SD part %.4g, allowance %.4g), R=%d", st.cls.c_str(), st.label.c_str(), T, st.E, bound,
                           bound - (st.cls == "mean" ? ALLOW_MEAN[sim] : ALLOW[sim]) * st.scale, (st.cls == "mean" ? ALLOW_MEAN[sim] : ALLOW[sim]) * st.scale, R));
   }
 }
@@ -636,7 +638,7 @@ static void fieldCase(Rng& r, Ctx& c, int sim, int variant)
     // scattered points in 1, 2 or 3 dimensions (point path of the turning bands)
     int ndim = variant == 1 ? 2 : variant == 2 ? 3 : 1;
     defineDefaultSpace(ESpaceType::RN, ndim);
-    support    = fmt("points%dd", ndim);
+    support    = "points";
     cs.sp.ndim = ndim;
     cs.sp.grid = false;
     cs.sp.S    = th ? 120 : 70;
